@@ -112,7 +112,11 @@ func (s *state) walk(node ast.Node) {
 	case *ast.TemplateNode:
 		s.visitTemplate(node)
 	case *ast.ListNode:
+		// a list of commands is a block: the {let} variables defined in it go
+		// out of scope at its end.
+		s.scope.push()
 		s.visitChildren(node)
+		s.scope.pop()
 
 		// Output nodes ----------
 	case *ast.RawTextNode:
@@ -147,13 +151,18 @@ func (s *state) walk(node ast.Node) {
 	case *ast.CallNode:
 		s.visitCall(node)
 	case *ast.LetValueNode:
-		s.jsln("var ", s.scope.makevar(node.Name), " = ", node.Expr, ";")
+		// (the expression is generated before the variable comes into scope)
+		var expr = s.block(node.Expr)
+		s.jsln("var ", s.scope.makevar(node.Name), " = ", expr, ";")
 	case *ast.LetContentNode:
+		// the variable is in scope only after its definition.
 		var oldBufferName = s.bufferName
-		s.bufferName = s.scope.makevar(node.Name)
+		var genName = s.scope.newname(node.Name)
+		s.bufferName = genName
 		s.jsln("var ", s.bufferName, " = '';")
 		s.walk(node.Body)
 		s.bufferName = oldBufferName
+		s.scope.bind(node.Name, genName)
 
 	// Values ----------
 	case *ast.NullNode:
